@@ -12,9 +12,9 @@ suite=$(go test -vet=off -count=1 -timeout 25m ./... 2>&1 | grep -v "^ok\|no tes
 [ -z "$suite" ] && suite_ok=yes || suite_ok="no: $suite"
 cp $src/demo_test.go $place
 pkg=./$(dirname $place)
-go test -vet=off -count=1 -run . $pkg >/dev/null 2>&1; with=$?
+go test $DEMO_FLAGS -vet=off -count=1 -run . $pkg >/dev/null 2>&1; with=$?
 git checkout -q -- . 
-go test -vet=off -count=1 -run . $pkg >/dev/null 2>&1; without=$?
+go test $DEMO_FLAGS -vet=off -count=1 -run . $pkg >/dev/null 2>&1; without=$?
 rm -f $place; git clean -fdq
 echo "$id/$v suite_with_change=$suite_ok demo_with_change_exit=$with demo_without_exit=$without"
 if [ "$suite_ok" = yes ] && [ $with -ne 0 ] && [ $without -eq 0 ]; then
